@@ -41,6 +41,13 @@ class TradeInit(Contract):
         q, b, a = lift_fl(c.quantity), lift_fl(c.bid_price), lift_fl(c.ask_price)
         return {"ValueError": {"when": z3.Or(b.nan, a.nan, q.nan, q.v == 0, is_cash(c.contract.t))}}
 
+    def witness(self, c):
+        q, b, a = lift_fl(c.quantity), lift_fl(c.bid_price), lift_fl(c.ask_price)
+        k = c.contract.t
+        f = c.I.heap[c.broker_fees.oid]
+        return {"dq": q.v, "dq_nan": q.nan, "bid": b.v, "bid_nan": b.nan, "ask": a.v, "ask_nan": a.nan, "is_cash": is_cash(k),
+                "mult": mult(k), "cr": cr(k), "fee_fixed": f["fixed"].v, "fee_prop": f["proportional"].v}
+
     def fields(self, c):
         q, b, a = lift_fl(c.quantity), lift_fl(c.bid_price), lift_fl(c.ask_price)
         k = c.contract.t
